@@ -144,6 +144,7 @@ def check_after(U: Users, caller, op, before, snaps, be, raised):
         return (not enc) or s['owner'] == caller
     def visible(s):
         return (not enc) or U.family(s['owner']) == fam_c
+    refused = False
     if op != 'clean':
         must_fail = unknown or any(not deletable(s) for s in targets)
         if must_fail:
@@ -151,9 +152,14 @@ def check_after(U: Users, caller, op, before, snaps, be, raised):
                 return False, f'{op} by {caller} should have been refused'
             if not isinstance(raised, exceptions.ReplicatError):
                 return False, f'{op}: expected ReplicatError, got {raised!r}'
-            if after != before:
-                return False, f'{op} was refused but the repository changed: {sorted(set(before) ^ set(after))}'
-            return True, ''
+            gone = [s for s in targets if s['loc'] not in after]
+            if any(not deletable(s) for s in gone):
+                return False, f'{op} by {caller} removed a snapshot it has no right to delete'
+            # a refused command may have deleted the caller's own named snapshots (or nothing); what it did delete
+            # is judged by the same safety and confinement rules, completeness is not demanded
+            targets = gone
+            refused = True
+            raised = None
     if raised is not None:
         return False, f'{op} by {caller} raised {raised!r}'
     deleted = set(before) - set(after)
@@ -181,6 +187,8 @@ def check_after(U: Users, caller, op, before, snaps, be, raised):
     for s in targets:
         if s['loc'] in after:
             return False, f'snapshot {s["name"][:8]} not deleted'
+    if refused:
+        return True, ''
     if any(k.startswith('snapshots/') and k not in [s['loc'] for s in targets] for k in deleted):
         return False, 'a snapshot that was not named was deleted'
     # completeness (C08)
